@@ -153,7 +153,7 @@ def rRef (withIdx : Bool) : Option (Bytes × Nat) → String
   | some (n, i) => "@" ++ a n ++ (if withIdx then ":" ++ toString i else "")
 
 def rHdr (w : Bool) (h : TyHdr) : String :=
-  a h.name ++ "#" ++ toString h.cat ++ (if h.isTd then "t" else "") ++ rRef w h.ref
+  a h.name ++ (if w then "#" ++ toString h.cat else "") ++ (if h.isTd then "t" else "") ++ rRef w h.ref
 
 def rTy (w : Bool) : Ty → String
   | .named h => rHdr w h
